@@ -371,6 +371,11 @@ func checkC07(c *Ctx) {
 	}
 	c.Floor("CMD-APPLIES", 4)
 	c.Floor("RESOLVE-GUARD", 1)
+	c.Decides("DESCENT: resolveRecur descends into every neighbour other than the one it came from (no further condition on the descent): every multifurcation is reached, wherever it sits")
+	if fi := c.Func("tree", "Tree", "resolveRecur"); fi != nil {
+		c.descentEverywhere("DESCENT", fi, "resolve yields a fully binary tree")
+	}
+	c.Floor("DESCENT", 1)
 	c.Decides("OPTVAR-LOOP: no command overwrites the storage of one of its options, inside its loop over the input trees, with a value computed from the current tree (a threshold capped for one tree would then be used, capped, for every tree after it)")
 	nl, _ := c.optVarLoop("OPTVAR-LOOP", "contracts exactly the branches meeting the criterion")
 	if nl < 100 {
